@@ -447,6 +447,39 @@ def check(ctx):
                 # (below the bar the factor is used with a negative exponent: C04 promises 1e-9 there, not exactness)
                 ctx.violation("updown:%s" % text, text + ("   (after `%s`)" % (num[0] if text == den[0] else den[0]) if (text == den[0]) == (idx < half) else ""),
                               str(want), repr(v), "one process: `%s` then `%s`" % ((num[0], den[0]) if idx < half else (den[0], num[0])))
+    # a registered spelling that ALSO splits into prefix + unit (cd, ft, min, pt, yd, kyd, php …) always means the registered unit:
+    # as a conversion TARGET too, whatever the dimension of the source (a source of the split reading's dimension must be refused)
+    for w, b_ in spellings:
+        if b_ != "registered" or w not in by_spelling:
+            continue
+        splits = [(pmult(p), i) for p in prefixes for (pre, table) in ((p.name_prefix, "n"), (p.symbol_prefix, "s"))
+                  if w.startswith(pre) and len(w) > len(pre) for i in sorted(by_spelling.get(w[len(pre):], ()))
+                  if (w[len(pre):] in (units[i].singular_name, units[i].plural_name)) == (table == "n")]
+        reg = units[sorted(by_spelling[w])[0]]
+        for m, i in splits:
+            u2 = units[i]
+            if u2.quantity_vector == reg.quantity_vector or u2.offset != 0 or not one_identifier(w):
+                continue
+            src = target_of(u2)
+            if src is None or typed(w, reg)[0] != "ok":
+                continue
+            text = "7 %s to %s" % (src, w)
+            st, v = R.value(text)
+            ctx.count("split-target:" + text, bucket="pipeline/registered-wins-as-target")
+            if st == "ok":
+                ctx.violation("split-target:%s" % w, text, "an error: %r is the registered unit %s (%s), not %s-%s" % (w, reg.symbol, reg.quantity_vector.prettified(), "prefix", u2.symbol),
+                              repr(v), "ka: `%s`" % text)
+    # one base unit under two different prefixes inside ONE signature: each occurrence is scaled by its own prefix
+    mixed = [(w, c) for w, c in cand[: ctx.n(80, 1500)]]
+    for w, c in mixed:
+        u, m = units[c[2]], c[1]
+        tgt = target_of(u)
+        for text, want in (("1 %s | %s" % (w, tgt), m), ("1 %s %s to %s^2" % (w, tgt, tgt), m), ("1 %s %s to %s^2" % (tgt, w, tgt), m)):
+            st, v = R.value(text)
+            ctx.count("mixed-prefix:" + text, bucket="pipeline/same-unit-two-prefixes")
+            val = v.mag if (st == "ok" and isinstance(v, Q) and not any(v.qv.v.xs)) else v
+            if st != "ok" or isinstance(val, bool) or not isinstance(val, (int, Fraction, float)) or not close(Fraction(val), m, Fraction(1, 10**12)):
+                ctx.violation("mixed-prefix:%s" % text, text, str(m), repr(v), "ka: `%s`" % text)
     # ratios through the pipeline
     for a, k, b in ref["ratios"]:
         if R.value("1 " + a)[0] == "ok" and R.value("1 " + b)[0] == "ok":
